@@ -29,5 +29,5 @@ props=(); extra=()
 for a in "$@"; do case "$a" in C[0-9]*) props+=("$a");; *) extra+=("$a");; esac; done
 rc_all=0
 for p in "${props[@]}"; do
-  VERIF_REPO="$wt" VERIF_OUT="$wt/.verif-out" "$here/vcheck" "$p" "${extra[@]}" 2>&1 | grep -E "VIOLATION|mechanism=|INCONCLUSIVE|KNOWN|: (held|violated|inconclusive)" | cut -c1-300
+  VERIF_REPO="$wt" VERIF_OUT="$wt/.verif-out" "$here/vcheck" "$p" "${extra[@]}" 2>&1 | grep -a -E "VIOLATION|mechanism=|INCONCLUSIVE|KNOWN|: (held|violated|inconclusive)" | cut -c1-300
 done
